@@ -288,7 +288,7 @@ fn entry(key: &str, t: &[i64]) -> i128 {
             // give every in-band entry its own value through the write accessor (an entry that shares storage with another shows below)
             let inband = |p: usize, q: usize| q <= p + m2 && p <= q + m1;
             let fill = catch_unwind(AssertUnwindSafe(|| { for p in 0..n { for q in 0..n { if inband(p, q) { b[(p, q)] = 100.0 + (p * 10 + q) as f64; } } } }));
-            if fill.is_err() { return if inband(i, j) && i < n && j < n { 1 } else { 1 }; }
+            if fill.is_err() { return 1; }      // an in-band write was refused: reported for the in-band tuples as `in-range call panicked`
             let s = bits_b(&b);
             let r = catch_unwind(AssertUnwindSafe(|| { b[(i, j)] = 7.0; }));
             if r.is_err() { return if bits_b(&b) == s { 1 } else { 2 }; }
